@@ -92,7 +92,7 @@ pub enum Flavour {
     Sorted,
     /// one treap, range operations only after a build-up: deep lazy stacks
     LazyHeavy,
-    /// one treap grown to 80..220 elements (with spine priorities: depth = size) before a
+    /// one treap grown to 80..300 elements (with spine priorities: depth = size) before a
     /// short lazy-heavy history: depth and size far beyond what short histories reach
     Deep,
 }
@@ -115,7 +115,8 @@ pub fn gen_cfg(rng: &mut Rng) -> Cfg {
         _ => Flavour::Deep,
     };
     if flavour == Flavour::Deep {
-        let build_up = rng.urange(80, 220);
+        // up to 300 elements: crosses the 2^8 thresholds (sizes, depths) as well
+        let build_up = if rng.chance(1, 3) { rng.urange(257, 300) } else { rng.urange(80, 220) };
         return Cfg {
             flavour,
             ops: build_up + rng.urange(8, 25),
@@ -123,7 +124,7 @@ pub fn gen_cfg(rng: &mut Rng) -> Cfg {
             weights: [0, 3, 1, 2, 6, 3, 0, 12, 5, 3, 3, 1, 1],
             slots: 1,
             manual_prio: *rng.pick(&STRATEGIES),
-            max_len: 256,
+            max_len: 320,
         };
     }
     // op order: from_item, insert_at, manual_insert, remove_at, split_at, split_by, merge,
